@@ -32,7 +32,7 @@ import (
 )
 
 var behaviours = []string{"honest-with-key", "honest-with-key", "honest-without-key", "other-key", "flipped-data", "empty-data", "previous-challenge", "replay-signature", "garbage-reply", "wrong-type-reply", "empty-signature", "wrong-format", "failure", "close", "truncated-signature"}
-var dirStates = []string{"pub", "pub", "bare", "both-same", "both-different", "none", "unparsable", "empty-file", "other-users-key", "right-key-other-name", "other-user-dotted-name", "other-user-dotted-name", "certificate", "pub-is-directory", "symlink-to-key", "dangling-symlink", "dangling-symlink-and-bare"}
+var dirStates = []string{"pub", "pub", "bare", "both-same", "both-different", "none", "unparsable", "empty-file", "other-users-key", "right-key-other-name", "other-user-dotted-name", "other-user-dotted-name", "certificate", "pub-is-directory", "symlink-to-key", "dangling-symlink", "dangling-symlink-and-bare", "unusable-pub-shadows-bare", "unusable-pub-shadows-bare"}
 
 type runRec struct {
 	Behaviour string `json:"agent_behaviour"`
@@ -83,7 +83,7 @@ func (m *chalMon) add(r *ev.Run, c *ev.Case, d []byte) {
 
 func main() {
 	ev.MainIsolated("C01", "exploration", 40*time.Minute, func(r *ev.Run) {
-		r.Rule("seeded runs of gensign.Run with the real regular handler (built by NewHandler from JSON configuration) over a scripted forwarded agent. Per run: agent behaviour in {honest with the key, honest without it, signs with another key, signs the challenge with one bit flipped / empty data / the previous challenge, replays the previous run's signature, garbage reply, well-formed reply of the wrong type, empty signature blob, wrong format string, truncated signature, failure, closes the connection} x user key type {RSA, ECDSA P-256/384/521, Ed25519, sk-ssh-ed25519@openssh.com} x registered-key directory state {<name>.pub, bare <name>, both (same / different keys), none, unparsable, empty file, another user's key under this name, right key under another name only, <name>.pub a directory / a symlink to the key / a dangling symlink (with and without a bare <name>), an OpenSSH certificate over the user's key (agent holding the certificate identity and/or the issuing key)} x policy {NONS, NSOK, other} x hard-key flag; sequences of 2..6 runs on the same agent (replay / freshness); plus handler lists of 1..4 stub/real handlers with every accept/reject pattern; plus runs while the process entropy source (crypto/rand.Reader) answers in pieces of 1, 7, 32, 63 bytes or fails (the challenge is still 64 fresh bytes, resp. nobody is authenticated). Oracle from the wire log alone: a signer call or an add-identity frame requires that this run's sign request named a registered key and was answered with a signature that the harness itself verifies over exactly the challenge sent, and policy NONS without hard key. distinct_nontrivial = distinct (behaviour, directory state, policy, hard-key, key type, outcome) combinations + distinct handler-list patterns")
+		r.Rule("seeded runs of gensign.Run with the real regular handler (built by NewHandler from JSON configuration) over a scripted forwarded agent. Per run: agent behaviour in {honest with the key, honest without it, signs with another key, signs the challenge with one bit flipped / empty data / the previous challenge, replays the previous run's signature, garbage reply, well-formed reply of the wrong type, empty signature blob, wrong format string, truncated signature, failure, closes the connection} x user key type {RSA, ECDSA P-256/384/521, Ed25519, sk-ssh-ed25519@openssh.com} x registered-key directory state {<name>.pub, bare <name>, both (same / different keys), none, unparsable, empty file, another user's key under this name, right key under another name only, <name>.pub unusable while a bare <name> holds the requester's key, <name>.pub a directory / a symlink to the key / a dangling symlink (with and without a bare <name>), an OpenSSH certificate over the user's key (agent holding the certificate identity and/or the issuing key)} x policy {NONS, NSOK, other} x hard-key flag; sequences of 2..6 runs on the same agent (replay / freshness); plus handler lists of 1..4 stub/real handlers with every accept/reject pattern; plus runs while the process entropy source (crypto/rand.Reader) answers in pieces of 1, 7, 32, 63 bytes or fails (the challenge is still 64 fresh bytes, resp. nobody is authenticated). Oracle from the wire log alone: a signer call or an add-identity frame requires that this run's sign request named a registered key and was answered with a signature that the harness itself verifies over exactly the challenge sent, and policy NONS without hard key. distinct_nontrivial = distinct (behaviour, directory state, policy, hard-key, key type, outcome) combinations + distinct handler-list patterns")
 		r.Assume("x/crypto/ssh signature verification is the reference for 'valid signature'", "login names contain no path separator", "unpredictability is observed as length >= 32, distinctness over the whole run, per-bit balance within 6 sigma (and getrandom provenance under strace in the thorough tier)")
 		gen.Pool()
 		mon := &chalMon{seen: map[[32]byte]bool{}}
@@ -229,6 +229,20 @@ func sequence(r *ev.Run, c *ev.Case, seqNo int, mon *chalMon) {
 		case "right-key-other-name":
 			kd.Write(logName+"x.pub", line(user))
 			kd.Write("x"+logName, line(user))
+		case "unusable-pub-shadows-bare":
+			// <name>.pub exists (so it is the registered file) but holds no usable key; a bare <name> file next to it holds
+			// a key the requester has — stale, shadowed, not registered
+			switch rng.Intn(4) {
+			case 0:
+				kd.Write(logName+".pub", []byte("ssh-ed25519 not-base64!! x\n"))
+			case 1:
+				kd.Write(logName+".pub", nil)
+			case 2:
+				kd.Write(logName+".pub", []byte("# rotated, ask the helpdesk\n"))
+			default:
+				os.Mkdir(filepath.Join(kd.Path, logName+".pub"), 0o700)
+			}
+			kd.Write(logName, line(user))
 		case "pub-is-directory":
 			os.Mkdir(filepath.Join(kd.Path, logName+".pub"), 0o700)
 		case "symlink-to-key":
